@@ -266,6 +266,7 @@ func init() {
 			ruleBIND5(c)
 			ruleBIND6(c)
 			ruleBIND7(c)
+			ruleBIND8(c)
 		},
 	})
 	register(&PropSpec{
